@@ -9,10 +9,12 @@
     and every parser loop starts with [fuel_of st] = (number of remaining tokens) + 1 <= length src + 1
     ([C11_fuel_linear]).  So [parse cf src] is "parse with fuel linear in length src", [parse .. <> OutOfFuel] says
     that no loop uses its fuel up: every iteration that goes round again has consumed a token (a byte, in the lexer).
+    [C11_steps_linear] adds the total: all parser loops together run at most 2 * length src + 1 iterations.
     Wall-clock time and machine stack depth of the implementation are measured by the correspondence run, not proved. *)
 From Coq Require Import ZArith List Bool.
 From L21 Require Import Lef.LefDec Lef.LefData Lef.LefLex Lef.LefParse Lef.LefWrite
-  Lef.LefLex_proofs Lef.LefParse_proofs Lef.LefSafety_proofs.
+  Lef.LefLex_proofs Lef.LefParse_proofs Lef.LefSafety_proofs Lef.LefCount_proofs.
+From L21 Require Lef.LefParseG.
 Import ListNotations.
 Local Open Scope Z_scope.
 
@@ -60,6 +62,37 @@ Theorem C11_fuel_linear :
   forall cm src, lex_fuel src = S (length src) /\
     forall v c, (fuel_of (mkpst (fst (lex cm src)) (snd (lex cm src)) v c) <= S (length src))%nat.
 Proof. exact fuel_linear. Qed.
+
+(** every parser loop advances or returns.  [st_ok src st]: every remaining token's span and line start are
+    character boundaries of [src] and the stream does not end in a lexer panic; [R src st c Q r]: the outcome r is
+    neither Panic nor OutOfFuel, and if r = Ok (a, st') then st' is again [st_ok] and at least c tokens of st were
+    consumed.  From any such state, with a fuel above the number of remaining tokens, the loops named by the
+    property (`parse_point_list`, `parse_symmetries`, the BEGINEXT loop, the "anything until ;" property loop, the
+    pin / macro / library loops) neither panic nor use their fuel up -- every iteration that goes round again has
+    consumed a token.  (One such lemma per `parse_*` function and loop: the [Spec] instances of
+    Lef/LefParse_proofs.v.) *)
+Theorem C11_loops_advance :
+  forall cf src, c_charpos cf = false -> utf8_valid src ->
+  forall f st, st_ok src st -> (len st < f)%nat ->
+    (forall acc, R src st 0 T (point_list_loop cf src f acc st)) /\
+    (forall acc, R src st 0 T (symm_loop cf src f acc st)) /\
+    (forall data, R src st 0 T (ext_loop cf src f data st)) /\
+    (forall acc, R src st 0 T (property_loop cf src f acc st)) /\
+    (forall p props, R src st 0 T (pin_loop cf src f p props st)) /\
+    (forall m props, R src st 0 T (macro_loop cf src f m props st)) /\
+    (forall lib, R src st 0 T (lib_loop cf src f lib st)).
+Proof. exact loops_advance. Qed.
+
+(** work proportional to the input: [LefParseG.parse_count] (Lef/LefParseG.v, generated from the model) is the
+    parser model with a counter ticked by every iteration of every parser loop and returned with every outcome.
+    It returns exactly what [parse] returns, and the count is at most 2 * length src + 1 -- on success and on
+    error alike (amortised: every iteration that goes round again has consumed a token; Lef/LefCount_proofs.v).
+    Between two ticks the model performs a bounded number of token operations (the loop bodies are loop-free). *)
+Theorem C11_steps_linear :
+  forall cf src, c_charpos cf = false -> utf8_valid src ->
+    fst (LefParseG.parse_count cf src) = parse cf src /\
+    (snd (LefParseG.parse_count cf src) <= 2 * length src + 1)%nat.
+Proof. exact parse_count_ok. Qed.
 
 (** the reader returns a library or an error *)
 Theorem C11_total :
@@ -158,6 +191,12 @@ Example C11_nonvacuous_rewrite :
   end = true.
 Proof. vm_compute. reflexivity. Qed.
 
+(** the counter at work: 45 tokens in 285 bytes, 20 loop iterations; the failing text stops after 2 *)
+Example C11_nonvacuous_steps :
+  snd (LefParseG.parse_count cfg_fixed c11_example) = 20%nat /\ length (fst (lex false c11_example)) = 45%nat
+  /\ length c11_example = 285%nat /\ snd (LefParseG.parse_count cfg_fixed c11_example_err) = 2%nat.
+Proof. vm_compute. repeat split. Qed.
+
 (** [utf8_valid] is Rust's `str::from_utf8` acceptance: overlong forms, surrogates, values above U+10FFFF,
     stray continuation bytes and truncated sequences are rejected *)
 Example C11_utf8_validator :
@@ -172,6 +211,11 @@ Proof. vm_compute. repeat split. Qed.
 (** ** Pins *)
 Check C11_no_panic : forall cf src, c_charpos cf = false -> utf8_valid src -> parse cf src <> Panic.
 Check C11_terminates_linear : forall cf src, c_charpos cf = false -> utf8_valid src -> parse cf src <> OutOfFuel.
+Check C11_steps_linear : forall cf src, c_charpos cf = false -> utf8_valid src ->
+    fst (LefParseG.parse_count cf src) = parse cf src /\ (snd (LefParseG.parse_count cf src) <= 2 * length src + 1)%nat.
+Check C11_total : forall cf src, c_charpos cf = false -> utf8_valid src ->
+    (exists l, parse cf src = Ok l) \/ (exists e, parse cf src = Err e) \/ parse cf src = Unmodelled.
+Check C11_reader_strings_valid : forall cf src l, utf8_valid src -> parse cf src = Ok l -> val_lib l.
 Check C11_lex_no_panic : forall src, utf8_valid src -> snd (lex false src) <> LPanic.
 Check C11_lex_terminates : forall cm src, snd (lex cm src) <> LFuel.
 Check C11_rewrite_safe : forall cf src l, c_charpos cf = false -> utf8_valid src -> parse cf src = Ok l ->
@@ -186,6 +230,8 @@ Print Assumptions C11_lex_terminates.
 Print Assumptions C11_no_panic.
 Print Assumptions C11_terminates_linear.
 Print Assumptions C11_fuel_linear.
+Print Assumptions C11_steps_linear.
+Print Assumptions C11_loops_advance.
 Print Assumptions C11_total.
 Print Assumptions C11_reader_strings_valid.
 Print Assumptions C11_rewrite_safe.
